@@ -148,3 +148,58 @@ rw!(r1, 1);
 rw!(r2, 2);
 rw!(r3, 3);
 
+
+/// two-step history: a buffer write at `a`, then an object read at `b` through a different route; the value read
+/// is what the flat model holds after the write ("what was written is what is later read back, through any route")
+fn write_then_read_obj<const NR: usize>() {
+    let mut pool: [u8; POOL] = kani::any();
+    let before = pool;
+    let m = any_layout(&mut pool, NR);
+    let buf: [u8; BL] = kani::any();
+    let l: usize = kani::any();
+    kani::assume(l >= 1 && l <= BL);
+    let a: u64 = kani::any();
+    let cnt = match m.write(&buf[..l], GuestAddress(a)) {
+        Ok(n) => n,
+        Err(e) => {
+            leak(e);
+            0
+        }
+    };
+    assert!(cnt == m.run(a, l));
+    let b: u64 = kani::any();
+    let r = m.read_obj::<u16>(GuestAddress(b));
+    let avail = m.run(b, 2);
+    match &r {
+        Ok(v) => {
+            assert!(avail == 2);
+            let got = v.to_le_bytes();
+            let k: usize = kani::any();
+            kani::assume(k < 2);
+            let ga = b as u128 + k as u128;
+            let want = if cnt > 0 && ga >= a as u128 && ga - (a as u128) < cnt as u128 {
+                buf[(ga - a as u128) as usize]
+            } else {
+                let i = m.owner(ga).unwrap();
+                before[i * RSZ + (ga - m.regions[i].start as u128) as usize]
+            };
+            assert!(got[k] == want);
+        }
+        Err(GErr::PartialBuffer { expected, completed }) => assert!(avail == 1 && *expected == 2 && *completed == 1),
+        Err(e) => assert!(avail == 0 && gkind(e) == GK::InvalidGuestAddress),
+    }
+    kani::cover!(r.is_ok() && cnt > 0 && b > a && b - a < cnt as u64); // reads back freshly written bytes
+    kani::cover!(r.is_ok() && cnt > 0 && b + 1 == a); // straddles the start of the written range
+    kani::cover!(matches!(r, Err(GErr::PartialBuffer { .. })));
+    leak(r);
+}
+mod hist {
+    #[kani::proof]
+    fn r1_write_then_read_obj() {
+        super::write_then_read_obj::<1>()
+    }
+    #[kani::proof]
+    fn r2_write_then_read_obj() {
+        super::write_then_read_obj::<2>()
+    }
+}
